@@ -12,6 +12,7 @@ OUTS = {
     # control sequences whose final byte is not a letter (ECMA-48: any of 0x40-0x7E ends a CSI): function key, insert character
     "csi": "<<%s>> before\x1b[2~ 12345 + 6789 = 19134\n<<%s>> error: real text\x1b[1@X yz\n",
     "multi": "<<%s>> l1\n<<%s>> l2\n",
+    "blank": "<<%s>> l1\n\n<<%s>> l3 after an empty line\n\n",
     "none": None,
 }
 
@@ -23,7 +24,7 @@ def P(kind, name):
     return t.replace("%s", name)
 
 
-def _ops(v, js=(1, 2, 3), faults=(), extra=()):
+def _ops(v, js=(1, 2, 3), faults=(), extra=(), quiet=False):
     ops = []
     for s in sources_of([v]):
         ops.append({"op": "edit", "path": s, "label": "edit " + s})
@@ -35,6 +36,10 @@ def _ops(v, js=(1, 2, 3), faults=(), extra=()):
     ops.append(ninja_op(j=js[-1], env={"NINJA_STATUS": "%s/%f/%t/%r/%u|"}, label="ninja -j%d NINJA_STATUS=%%s/%%f/%%t/%%r/%%u|" % js[-1]))
     ops.append(ninja_op(j=js[-1], flags=["-v"], label="ninja -j%d -v" % js[-1]))
     ops.append(ninja_op(j=js[-1], flags=["--status", "$started/$finished/$total $description"], label="ninja --status"))
+    if quiet:
+        ops.append(ninja_op(j=js[-1], flags=["--quiet"], label="ninja -j%d --quiet" % js[-1]))
+        for f in faults[:1]:
+            ops.append(ninja_op(j=js[-1], k=0, faults=f, flags=["--quiet"], label="ninja -j%d -k0 --quiet faults=%s" % (js[-1], "+".join(sorted(f)))))
     # stdout is a terminal, 50 columns wide: status lines are elided and overwrite each other, colours pass through
     tty = {"TERM": "xterm", "VERIF_TTY_COLS": "50"}
     ops.append(ninja_op(j=js[-1], env=tty, label="ninja -j%d [on a terminal]" % js[-1]))
@@ -50,8 +55,8 @@ def templates(tier="quick"):
     T = []
     d = 4 if tier == "quick" else 5
 
-    def add(name, v, faults=(), js=(1, 2, 3), extra=(), files=None, tags=(), variants=None):
-        ops, nb = _ops(v, js=js, faults=faults, extra=extra)
+    def add(name, v, faults=(), js=(1, 2, 3), extra=(), files=None, tags=(), variants=None, quiet=False):
+        ops, nb = _ops(v, js=js, faults=faults, extra=extra, quiet=quiet)
         vs = variants or [v]
         T.append(scenario("c20/%s/fresh" % name, "c20", vs, files=files, ops=ops, init=[], depth=1, tags=["output", "fresh"] + list(tags)))
         # (depth 5 of the thorough tier exceeds the memory budget for the three projects with the most outcomes per build)
@@ -80,6 +85,11 @@ def templates(tier="quick"):
           Stmt("link", ex=["m1", "i1", "d1"], prints=P("line", "link"))]
     add("failing_with_several_outputs", Variant("v0", st), js=(1, 3), files={"dd": dyndep_text([("d1", ["d1.mod"], [], False)])},
         faults=[{"m1": {"code": 2}}, {"i1": {"code": 3}}, {"d1": {"code": 4}}, {"m1": {"code": 1}, "i1": {"code": 1, "touch": True}, "d1": {"code": 5}}])
+    # tools whose output ninja filters (deps = msvc: the /showIncludes notes are taken out, everything else is the tool's own
+    # output -- empty lines included)
+    st = [Stmt("m1", ex=["s"], hidden=["inc.h"], deps="msvc", prints=P("blank", "m1")), Stmt("m2", ex=["t"], hidden=["inc.h", "inc2.h"], deps="msvc", prints=P("multi", "m2")),
+          Stmt("m3", ex=["t"], hidden=["inc.h"], deps="msvc", prints=P("nonl", "m3")), Stmt("link", ex=["m1", "m2", "m3"], prints=P("blank", "link"))]
+    add("msvc_filtered_output", Variant("v0", st), js=(1, 3), faults=[{"m1": {"code": 2}}, {"m2": {"code": 1}, "m3": {"code": 1}}])
     # restat pruning: totals shrink
     st = [Stmt("r", ex=["s"], restat=True, prints=P("line", "r")), Stmt("a", ex=["r"], prints=P("line", "a")),
           Stmt("b", ex=["a"], prints=P("multi", "b")), Stmt("x", ex=["t"], prints=P("line", "x"))]
@@ -93,7 +103,7 @@ def templates(tier="quick"):
     st = [Stmt("c1", ex=["s"], pool="console", prints=P("multi", "c1")), Stmt("n1", ex=["s"], prints=P("line", "n1")),
           Stmt("n2", ex=["t"], prints=P("nonl", "n2")), Stmt("c2", ex=["t"], pool="console", prints=P("line", "c2")),
           Stmt("n3", ex=["t"], prints=None), Stmt("top", ex=["c1", "n1", "n2", "c2", "n3"], prints=P("line", "top"))]
-    add("console_mix", Variant("v0", st), js=(2, 3), faults=[{"n1": {"code": 1}}, {"c1": {"code": 1}}])
+    add("console_mix", Variant("v0", st), js=(2, 3), faults=[{"n1": {"code": 1}}, {"c1": {"code": 1}}], quiet=True)
     # every kind of output held back while a console command owns the terminal (NUL bytes, escapes, 5 KB, no newline)
     st = [Stmt("c1", ex=["s"], pool="console", prints=P("line", "c1")), Stmt("n1", ex=["s"], prints=P("nul", "n1")),
           Stmt("n2", ex=["t"], prints=P("big", "n2")), Stmt("n3", ex=["t"], prints=P("ansi", "n3")),
